@@ -134,8 +134,33 @@ def op_functor(rng, kit, pool, emit):
         emit("functor-empty", empty(a))
 
 
+def _payload_size(diagram):
+    """ Number of array entries carried by the boxes (tensor diagrams). """
+    total = 0
+    for box in getattr(diagram, "boxes", []):
+        data = getattr(box, "data", None)
+        total += getattr(data, "size", 0) or (
+            len(data) if isinstance(data, (list, tuple)) else 0)
+    return total
+
+
+def _dim_size(ty):
+    size = 1
+    for ob in getattr(ty, "objects", []):
+        name = getattr(ob, "name", ob)
+        if isinstance(name, int) and name > 0:
+            size *= name
+    return size
+
+
 def op_sum(rng, kit, pool, emit):
     a = _pick(rng, pool)
+    if _payload_size(a) > 1500 or _dim_size(a.dom) * _dim_size(a.cod) > 4096:
+        # the second term needs a box a.dom -> a.cod: for tensor diagrams its
+        # array has dim(dom) * dim(cod) entries, and building a Sum prints and
+        # scans the payload of every term several times over (name, free
+        # symbols) - minutes, and nothing about types is learnt from it
+        return
     b = kit.rand_diagram(rng, rng.randint(0, 2), dom=a.dom)
     try:
         fix = kit.box_with_dom(rng, b.cod, cod=a.cod)
